@@ -289,6 +289,7 @@ def core_configs():
         d['name'] = name
         return d
     ad = dict(maxiter=4, restol=-1, lambdas=[[-5.0, 0.0]], dt=0.2, Tend=1.0)
+    adr = dict(problem='vdp', mu=5.0, dt=0.02, Tend=0.3, maxiter=3, restol=-1, QI='IE', adaptivity={'e_tol': 2e-6})
     return [
         C('t1', P=1),
         C('t2jac', P=2, mssdc_jac=True),
@@ -325,6 +326,19 @@ def core_configs():
         C('t3adapt', P=3, adaptivity={'e_tol': 1e-5}, **ad),
         C('t4adaptlin', P=4, adaptivity={'e_tol': 1e-5, 'embedded_error_flavor': 'linearized'}, **ad),
         C('t3vdp', P=3, problem='vdp', mu=2.0, dt=0.05, Tend=0.4, maxiter=6, adaptivity={'e_tol': 1e-6}, restol=-1),
+        # Adaptivity x BasicRestartingMPI x SpreadStepSizesBlockwiseMPI with tolerances that really restart at slots >= 1 and
+        # give different step-size proposals per step; every boolean/enum option of the MPI convergence controllers with
+        # both values (restart_from_first_step, spread_from_first_restarted, overwrite_to_reach_Tend,
+        # crash_after_max_restarts, embedded_error_flavor)
+        C('t3adrfs', P=3, restarting={'max_restarts': 20, 'restart_from_first_step': True}, **adr),
+        C('t2adrfs', P=2, restarting={'max_restarts': 20, 'restart_from_first_step': True}, **adr),
+        C('t4adrfslin', P=4, restarting={'max_restarts': 20, 'restart_from_first_step': True},
+          **dict(adr, adaptivity={'e_tol': 2e-6, 'embedded_error_flavor': 'linearized'})),
+        C('t3adrst', P=3, restarting={'max_restarts': 20, 'restart_from_first_step': False}, **adr),
+        C('t3adrst_sp', P=3, restarting={'max_restarts': 20, 'restart_from_first_step': False, 'crash_after_max_restarts': False},
+          spread={'spread_from_first_restarted': False, 'overwrite_to_reach_Tend': False}, **adr),
+        C('t4adrst_cr', P=4, restarting={'max_restarts': 1, 'restart_from_first_step': False, 'crash_after_max_restarts': False},
+          spread={'spread_from_first_restarted': True, 'overwrite_to_reach_Tend': True}, **adr),
         C('t3art', P=3, art_restarts=[0.25, 0.5], restarting={'max_restarts': 2}, Tend=1.5),
         C('t4artearly', P=4, art_restarts=[0.125, 0.625, 0.75], restarting={'max_restarts': 2}, Tend=1.5),
         C('t3spreadTend', P=3, art_restarts=[0.25], art_dt=4, restarting={'max_restarts': 2},
@@ -409,7 +423,28 @@ def random_config(rng, i):
         if c['mssdc_jac'] or c.get('P', 1) == 1:
             c['nsweeps'] = [rng.randint(1, 3)]     # Gauss-Seidel MSSDC sweeps in it_coarse: exactly one sweep
     c['all_to_done'] = rng.random() < 0.25
-    feat = rng.choice(['none', 'none', 'adapt', 'adaptlin', 'art', 'artdt'])
+    feat = rng.choice(['none', 'none', 'adapt', 'adaptlin', 'art', 'artdt', 'adrst', 'adrst'])
+    if feat == 'adrst':
+        if kind == 'time' and c.get('P', 1) >= 2:
+            # a setting in which Adaptivity really restarts steps (also at slots >= 1) with different proposals per step
+            for k in ('lambdas', 'nvars', 'nodes_per_level', 'predict_type', 'finter', 'nsweeps'):
+                c.pop(k, None)
+            if isinstance(c.get('QI'), list):
+                c['QI'] = c['QI'][0]
+            nlev = 1
+            c.update(problem='vdp', mu=rng.choice([3.0, 5.0]), dt=rng.choice([0.02, 0.03]), nlev=1, M=3, maxiter=3, restol=-1,
+                     mssdc_jac=False, all_to_done=False, initial_guess='spread')
+            c['Tend'] = c['dt'] * rng.randint(6, 12)
+            c['adaptivity'] = {'e_tol': rng.choice([1e-6, 2e-6, 5e-6])}
+            if rng.random() < 0.4:
+                c['adaptivity']['embedded_error_flavor'] = 'linearized'
+            rfs = rng.random() < 0.5
+            c['restarting'] = {'max_restarts': rng.choice([1, 3, 20]), 'restart_from_first_step': rfs,
+                               'crash_after_max_restarts': rng.random() < 0.3}
+            if not rfs and rng.random() < 0.6:
+                c['spread'] = {'spread_from_first_restarted': rng.random() < 0.5, 'overwrite_to_reach_Tend': rng.random() < 0.5}
+        else:
+            feat = 'adapt'
     if c['initial_guess'] == 'zero' and c['restol'] != -1 and feat == 'none' and False:
         pass
     if feat in ('adapt', 'adaptlin') and c['problem'] != 'heat_forced':
@@ -614,6 +649,7 @@ def run(ck):
         ck.violation(what, replay, match=match)
 
     stats = {}
+    option_cov = {}
     info_findings = {}
     logs = []           # (name, normalised log, first?)
     nsched = 0
@@ -625,6 +661,25 @@ def run(ck):
             viol('simulated-MPI worker failed', {'cfg': cfg, 'error': str(err)[-2000:]}, {'kind': 'worker', 'cfg': name})
             continue
         ser = r['serial']
+        # which option values occur in runs that REALLY restart (serial reference), and where
+        if ser.get('outcome') == 'ok':
+            rst = [x['slot'] for x in ser['recs'] if x['ev'] == 'post' and x['restart']]
+            if rst:
+                opts = {}
+                for grp in ('restarting', 'spread', 'adaptivity'):
+                    for k, v in (cfg.get(grp) or {}).items():
+                        if isinstance(v, (bool, str)):
+                            opts['%s=%s' % (k, v)] = 1
+                if cfg.get('adaptivity') and 'embedded_error_flavor' not in cfg['adaptivity']:
+                    opts['embedded_error_flavor=standard'] = 1
+                for o in opts:
+                    e = option_cov.setdefault(o, {'configs': 0, 'restarted_steps': 0, 'restarts_at_slot>=1': 0})
+                    e['configs'] += 1
+                    e['restarted_steps'] += len(rst)
+                    e['restarts_at_slot>=1'] += sum(1 for x in rst if x >= 1)
+        elif cfg.get('restarting', {}).get('crash_after_max_restarts') and ser.get('outcome') == 'ConvergenceError':
+            e = option_cov.setdefault('crash_after_max_restarts=True (crashed)', {'configs': 0})
+            e['configs'] += 1
         first = None
         skeletons = set()
         for m in r['mpi']:
@@ -736,6 +791,7 @@ def run(ck):
     ck.cov['max_relative_deviation_serial_vs_mpi'] = {c: {k: float('%.3g' % v) for k, v in st.items()} for c, st in stats.items()}
     ck.cov['tolerances'] = dict(TOL, **{'between schedules': 'bit-exact (digest)'})
     ck.cov['simulator_notes'] = info_findings
+    ck.cov['convergence_controller_options_in_runs_with_restarts'] = option_cov
     ck.cov['violation_counts'] = {k: v['count'] for k, v in seen.items()}
 
     # ------------------------------------------------------------------ kernel replay of event logs
